@@ -156,6 +156,8 @@ def main():
     for k, sname in enumerate(spec["streams"]):
         stream = importlib.import_module("s_" + sname)
         rng = random.Random(seed * 1000003 + k)
+        import re as _re
+        msg_filter = _re.compile(spec["stream_filters"][sname]) if sname in spec.get("stream_filters", {}) else None
         if args.replay:
             rp = json.load(open(args.replay))
             cases = [common.uncanon(rp["case"])] if rp.get("stream") == sname else []
@@ -168,6 +170,8 @@ def main():
             obs_list.append(obs)
             pairs.append((stream.gcase(c), common.gal(obs)))
             for msg in (stream.oracle(c, obs) if obs != "hang" else ["implementation did not return within the time limit"]):
+                if msg_filter is not None and not msg_filter.search(msg):
+                    continue          # a clause of another property that shares this stream
                 kf = stream.classify(c, msg) if hasattr(stream, "classify") else None
                 if kf and any(kf == kk["id"] for kk in known):
                     known_hits[kf] = known_hits.get(kf, 0) + 1
@@ -189,7 +193,7 @@ def main():
             c = cases[i]
             msgs = stream.oracle(c, obs_list[i]) if obs_list[i] != "hang" else ["hang"]
             kf = stream.classify(c, "model/implementation disagreement") if hasattr(stream, "classify") else None
-            if kf and any(kf == kk["id"] for kk in known):
+            if kf and (any(kf == kk["id"] for kk in known) or msg_filter is not None):
                 known_hits[kf] = known_hits.get(kf, 0) + 1
                 continue
             violations.append(("model and implementation disagree on stream %s case %d" % (sname, i),
